@@ -320,57 +320,6 @@ theorem plain_of_textJ {t : Str} (h : textJ t = true) : Plain t := by
   · rfl
   all_goals (exfalso; revert hp; decide)
 
-def refTuple (r : Reference) : Str × Str × Str × Str × Str × Str := (r.range, r.authors, r.title, r.journal, r.pubMed, r.remark)
-
-theorem refsFacts_of : ∀ (refs : List Reference) (i : Nat), refs.all wfRefJ = true →
-    refs.map refTuple = (lossyRefs i refs).map refTuple → RefsFacts i refs
-  | [], _, _, _ => trivial
-  | r :: rs, i, hw, he => by
-    simp only [List.all_cons, Bool.and_eq_true] at hw
-    simp only [lossyRefs, List.map_cons, List.cons.injEq, refTuple, Prod.mk.injEq] at he
-    obtain ⟨⟨h1, h2, h3, h4, h5, h6⟩, hrest⟩ := he
-    have hr := hw.1
-    simp only [wfRefJ, Bool.and_eq_true] at hr
-    refine ⟨⟨hr.2, plain_of_textJ hr.1.1.1.1.1.1, h1.symm, ?_, ?_, ?_, ?_, ?_⟩, refsFacts_of rs (i + 1) hw.2 hrest⟩
-    · exact h2.symm
-    · exact h3.symm
-    · exact h4.symm
-    · exact h5.symm
-    · exact h6.symm
-
-theorem map_snd_eq {m : List (Str × Str)} {f : Str → Str} (h : m.map Prod.snd = (m.map fun kv => (kv.1, f kv.2)).map Prod.snd) :
-    ∀ kv ∈ m, f kv.2 = kv.2 := by
-  induction m with
-  | nil => intro kv hkv; cases hkv
-  | cons a m ih =>
-    simp only [List.map_cons, List.cons.injEq] at h
-    intro kv hkv
-    rcases List.mem_cons.mp hkv with rfl | hkv
-    · exact h.1.symm
-    · exact ih h.2 kv hkv
-
-/-- on the judge's layout domain, outside the two known findings, every fact the proof uses holds -/
-theorem facts_of_wfLayoutG (x : Sequence) (h : wfLayoutG x = true) : Facts x := by
-  simp only [wfLayoutG, Bool.and_eq_true, bne_iff_ne, ne_eq, Bool.not_eq_true'] at h
-  obtain ⟨⟨hj, hname⟩, hcls⟩ := h
-  simp only [wfLayoutJ, Bool.and_eq_true, bne_iff_ne, ne_eq, decide_eq_true_eq] at hj
-  obtain ⟨⟨⟨⟨⟨⟨⟨⟨⟨⟨⟨⟨⟨hlocus, _⟩, _⟩, _⟩, _⟩, _⟩, _⟩, hrefs⟩, _⟩, hother⟩, hfeat⟩, hne⟩, hlet⟩, hlen⟩ := hj
-  simp only [clsBlankRun, expectedBack, Bool.or_eq_false_iff, bne_eq_false_iff_eq] at hcls
-  obtain ⟨⟨⟨⟨⟨⟨⟨hd, ha⟩, hv⟩, hk⟩, hs⟩, ho⟩, hoth⟩, hrf⟩ := hcls
-  refine
-    { locus := ?_, definition := hd.symm, accession := ha.symm, version := hv.symm, keywords := hk.symm,
-      source := hs.symm, organism := ho.symm, refs := refsFacts_of _ 0 hrefs hrf, otherKeys := ?_,
-      otherVals := map_snd_eq (f := readBack) hoth, feats := hfeat, seqNe := hne, seqLetters := hlet,
-      seqLen := by simpa using hlen }
-  · simp only [wfLocusJ, Bool.and_eq_true, Bool.or_eq_true, beq_iff_eq] at hlocus
-    simp only [wfLocus, Bool.and_eq_true, Bool.or_eq_true, beq_iff_eq]
-    obtain ⟨⟨⟨⟨hn, h2⟩, h3⟩, h4⟩, h5⟩ := hlocus
-    exact ⟨⟨⟨⟨hn.resolve_left hname, h2⟩, h3⟩, h4⟩, h5⟩
-  · intro kv hkv
-    have := List.all_eq_true.mp hother kv hkv
-    simp only [wfOtherJ, Bool.and_eq_true, Bool.not_eq_true', decide_eq_true_eq] at this
-    exact ⟨this.1.1.1.1, this.1.1.2, this.1.2⟩
-
 /-- the old domain is inside the new one: single-spaced metadata has no run of blanks at all -/
 theorem facts_of_wfLayout (x : Sequence) (h : wfLayout x = true) : Facts x := by
   simp only [wfLayout, Bool.and_eq_true, bne_iff_ne, ne_eq, decide_eq_true_eq] at h
@@ -407,5 +356,187 @@ theorem facts_of_wfLayout (x : Sequence) (h : wfLayout x = true) : Facts x := by
         simp only [wfOther, Bool.and_eq_true] at this
         exact readText_singleSpaced this.2,
       feats := hfeat, seqNe := hne, seqLetters := hlet, seqLen := by simpa using hlen }
+
+/-! ### the EXACT result on the whole judge's domain (with a name): what is read back is `expectedBack x` -/
+
+/-- a reference: the number is a word or unset, the range has no white space but blanks, a non-empty
+sub-text is read back non-empty -/
+def RefFacts0 (r : Reference) : Prop :=
+  (r.index == [] || isWord r.index) = true ∧ Plain r.range
+    ∧ (r.authors ≠ [] → readText r.authors ≠ []) ∧ (r.title ≠ [] → readText r.title ≠ [])
+    ∧ (r.journal ≠ [] → readText r.journal ≠ []) ∧ (r.pubMed ≠ [] → readText r.pubMed ≠ [])
+    ∧ (r.remark ≠ [] → readText r.remark ≠ [])
+
+structure Facts0 (x : Sequence) : Prop where
+  locus : wfLocus x.metadata.locus = true
+  refs : ∀ r ∈ x.metadata.references, RefFacts0 r
+  otherKeys : ∀ kv ∈ x.metadata.other, isWord kv.1 = true ∧ kv.1.length ≤ 12 ∧ reservedKeys.contains kv.1 = false
+  feats : x.features.all wfFeature = true
+  seqNe : x.sequence ≠ []
+  seqLetters : x.sequence.all isLetter = true
+  seqLen : x.sequence.length < 10 ^ 9
+
+theorem refNum_ne_nil (i : Nat) (r : Reference) : refNum i r ≠ [] := by
+  unfold refNum
+  split
+  · exact Location.itoa_ne_nil _
+  · assumption
+
+theorem refNum_idem (i : Nat) (r : Reference) (r' : Reference) (h : r'.index = refNum i r) : refNum i r' = refNum i r := by
+  have hne := refNum_ne_nil i r
+  rw [← h] at hne
+  show (if r'.index = [] then Location.itoa (i + 1) else r'.index) = refNum i r
+  rw [if_neg hne, h]
+
+theorem map_optSub_exact (k : String) {v : Str} (h : v ≠ [] → readText v ≠ []) :
+    (optSub k v).map (fun kd => (kd.1, readText kd.2)) = optSub k (readBack v) := by
+  unfold optSub
+  by_cases hv : v = []
+  · subst hv
+    simp [readBack_eq_readText, readText_nil]
+  · have := h hv
+    simp [hv, readBack_eq_readText, this]
+
+theorem specBlock_refs_exact : ∀ (refs : List Reference) (i : Nat), (∀ r ∈ refs, RefFacts0 r) →
+    (refSpecs i refs).map specBlock = absRefs i (lossyRefs i refs)
+  | [], _, _ => rfl
+  | r :: rs, i, h => by
+    obtain ⟨h7, hpl, h2, h3, h4, h5, h6⟩ := h r List.mem_cons_self
+    have hn := reference_num (refNum i r) (isWord_refNum i r h7) r.range hpl
+    simp only [refSpecs, lossyRefs, absRefs, List.map_cons, specBlock,
+      specBlock_refs_exact rs (i + 1) (fun q hq => h q (List.mem_cons_of_mem _ hq))]
+    rw [refNum_idem i r (lossyRef i r) rfl]
+    congr 1
+    unfold mkBlock
+    rw [if_pos rfl, hn]
+    simp only [refSubs, List.map_append, map_optSub_exact _ h2, map_optSub_exact _ h3, map_optSub_exact _ h4,
+      map_optSub_exact _ h5, map_optSub_exact _ h6]
+    rfl
+
+theorem lookupD_map (f : Str → Str) (hf : f [] = []) (m : List (Str × Str)) (k : Str) :
+    lookupD (m.map fun kv => (kv.1, f kv.2)) k = f (lookupD m k) := by
+  induction m with
+  | nil => simp [lookupD, hf]
+  | cons kv m ih =>
+    obtain ⟨a, b⟩ := kv
+    unfold lookupD at ih ⊢
+    by_cases hk : (k == a) = true
+    · simp [List.lookup, hk]
+    · have hk' : (k == a) = false := by simpa using hk
+      simp only [List.map_cons, List.lookup, hk']
+      exact ih
+
+theorem other_keys0 (x : Sequence) (f : Facts0 x) :
+    ∀ k ∈ sortStrings (x.metadata.other.map Prod.fst),
+      KeyOK k ∧ NoNl k ∧ k ≠ "REFERENCE".toList ∧ k ≠ "FEATURES".toList := by
+  intro k hk
+  have hmem : k ∈ x.metadata.other.map Prod.fst := (sortStrings_perm _).subset hk
+  obtain ⟨kv, hm, rfl⟩ := List.mem_map.mp hmem
+  obtain ⟨hw, hl, hres⟩ := f.otherKeys kv hm
+  refine ⟨keyOK_of_word hw hl, noNl_of_word hw, ?_, ?_⟩
+  · intro e; rw [e] at hres; revert hres; decide
+  · intro e; rw [e] at hres; revert hres; decide
+
+theorem specs_ok0 (x : Sequence) (f : Facts0 x) :
+    ∀ b ∈ headerSpecs x (sortStrings (x.metadata.other.map Prod.fst)), SpecFine b := by
+  have hof := other_keys0 x f
+  intro b hb
+  simp only [headerSpecs, List.mem_append, List.mem_cons, List.not_mem_nil, or_false] at hb
+  rcases hb with (hb | hb) | hb
+  · rcases hb with rfl | rfl | rfl | rfl | rfl
+    · exact plain_fine "DEFINITION".toList kDEF (by decide) (by decide) _
+    · exact plain_fine "ACCESSION".toList kACC (by decide) (by decide) _
+    · exact plain_fine "VERSION".toList kVER (by decide) (by decide) _
+    · exact plain_fine "KEYWORDS".toList kKEY (by decide) (by decide) _
+    · refine sub_fine "SOURCE".toList kSRC (by decide) (by decide) _ _ ?_
+      intro kd hkd
+      have : kd = ("ORGANISM".toList, x.metadata.organism) := List.mem_singleton.mp hkd
+      rw [this]
+      exact ⟨kORG, noNl_lit "ORGANISM".toList (by decide)⟩
+  · exact refSpecs_fine _ 0 b hb
+  · simp only [otherSpecs, List.mem_map] at hb
+    obtain ⟨k, hk', rfl⟩ := hb
+    obtain ⟨h1, h2, _, h4⟩ := hof k hk'
+    exact And.intro (And.intro h1 (by intro kd hkd; cases hkd)) (And.intro h2 (And.intro (by intro kd hkd; cases hkd) h4))
+
+theorem header_read_exact (x : Sequence) (f : Facts0 x) :
+    readHeader (specsLines (headerSpecs x (sortStrings (x.metadata.other.map Prod.fst))))
+      = some (abs (expectedBack x)).blocks := by
+  have hof := other_keys0 x f
+  unfold specsLines
+  rw [readHeader_specs _ (fun b hb => (specs_ok0 x f b hb).1)]
+  congr 1
+  have hother : (otherSpecs x.metadata.other (sortStrings (x.metadata.other.map Prod.fst))).map specBlock
+      = (sortedEntries ((x.metadata.other.map fun kv => (kv.1, readBack kv.2)))).map fun kv => ({ key := kv.1, text := kv.2 } : SBlock) := by
+    have hkeys : ((x.metadata.other.map fun kv => (kv.1, readBack kv.2)).map Prod.fst) = x.metadata.other.map Prod.fst := by
+      simp [List.map_map, Function.comp_def]
+    simp only [sortedEntries, hkeys, otherSpecs, List.map_map, Function.comp_def]
+    apply List.map_congr_left
+    intro k hk
+    simp only [specBlock, List.map_nil]
+    rw [mkBlock_other (hof k hk).2.2.1, lookupD_map readBack (by decide)]
+    rfl
+  unfold headerSpecs abs expectedBack
+  simp only [List.map_append, List.map_cons, List.map_nil, hother, specBlock_refs_exact _ 0 f.refs]
+  simp only [specBlock, List.map_cons, List.map_nil]
+  rw [mkBlock_other (k := "DEFINITION".toList) (by decide), mkBlock_other (k := "ACCESSION".toList) (by decide),
+    mkBlock_other (k := "VERSION".toList) (by decide), mkBlock_other (k := "KEYWORDS".toList) (by decide),
+    mkBlock_other (k := "SOURCE".toList) (by decide)]
+  rfl
+
+theorem header_lines_props0 (x : Sequence) (f : Facts0 x) :
+    ∀ l ∈ specsLines (headerSpecs x (sortStrings (x.metadata.other.map Prod.fst))),
+      NoNl l ∧ keywordIs "FEATURES" l = false := by
+  intro l hl
+  unfold specsLines at hl
+  obtain ⟨ls, hls, hl'⟩ := List.mem_flatten.mp hl
+  obtain ⟨b, hb, rfl⟩ := List.mem_map.mp hls
+  obtain ⟨hok, hk, hs, hne⟩ := specs_ok0 x f b hb
+  exact specLines_props b hok hk hs "FEATURES" ⟨'F', "EATURES".toList, by decide, by decide⟩ hne l hl'
+
+/-- **the exact result**: whatever runs of blanks the metadata holds, the strict column reader reads
+back from `build x` exactly the record `expectedBack x` (each text as its wrapped lines re-join) -/
+theorem strict_layout_exact (x : Sequence) (f : Facts0 x) :
+    strictRead (build x MapOrders.id) = some (abs (expectedBack x)) := by
+  obtain ⟨ols, hol, hread, hnt⟩ := origin_section x.sequence f.seqNe f.seqLetters f.seqLen
+  have hol' := origin_lines x.sequence f.seqNe f.seqLetters
+  have hols : ols = oLines 0 (chunks 60 x.sequence) := by
+    rw [hol] at hol'
+    exact List.append_cancel_right hol'
+  subst hols
+  obtain ⟨hfr, hfp⟩ := features_read x.features f.feats
+  have hhp := header_lines_props0 x f
+  have hlines : lines (build x MapOrders.id) =
+      locusLine x.metadata.locus :: (specsLines (headerSpecs x (sortStrings (x.metadata.other.map Prod.fst)))
+        ++ featHdr :: (featsLines (x.features.map fkOf) ++ "ORIGIN".toList
+            :: (oLines 0 (chunks 60 x.sequence) ++ ["//".toList]))) := by
+    rw [build_as_lines, lines_unl_append, origin_lines x.sequence f.seqNe f.seqLetters]
+    · simp only [List.append_assoc, List.cons_append, List.nil_append]
+    · intro l hl
+      simp only [List.mem_append, List.mem_cons, List.not_mem_nil, or_false] at hl
+      rcases hl with (((hl | hl) | hl) | hl) | hl
+      · rw [hl]; exact noNl_locusLine _ f.locus
+      · exact (hhp l hl).1
+      · rw [hl]; exact noNl_featHdr
+      · exact (hfp l hl).1
+      · rw [hl]; exact noNl_originKw
+  have hname : x.metadata.locus.name ≠ [] := by
+    have := f.locus
+    simp only [wfLocus, isWord, Bool.and_eq_true, bne_iff_ne, ne_eq] at this
+    exact this.1.1.1.1.1
+  unfold strictRead
+  rw [hlines]
+  simp only []
+  rw [cutAt_append (keywordIs "FEATURES") _ featHdr _ (fun l hl => (hhp l hl).2) keywordIs_featHdr]
+  simp only []
+  rw [cutAt_append (keywordIs "ORIGIN") _ "ORIGIN".toList _ (fun l hl => (hfp l hl).2) keywordIs_origin]
+  simp only []
+  rw [cutAt_append (fun l => l == "//".toList) _ "//".toList [] (fun l hl => by simpa using hnt l hl) (by simp)]
+  simp only [true_or, if_true]
+  rw [locus_read _ f.locus, header_read_exact x f, hfr, hread]
+  have hloc : (expectedBack x).metadata.locus = x.metadata.locus := by
+    simp [expectedBack, hname]
+  simp only [abs, hloc]
+  rfl
 
 end PolyVerif.Lemmas.GbLayoutJ
